@@ -308,12 +308,16 @@ def map_provenance(fn, expr, depth=0):
             v = g.iter.args[0]
             if is_plain_view(v):
                 return "enumerate-view", unparse(v)
+            if numbers_same_source(fn, v):
+                return "enumerate-placement-source", unparse(v)
             return None, f"enumerates `{unparse(v, 40)}`, not the unfiltered node/edge view in view order"
         return None, "dict comprehension of unrecognised form"
     if isinstance(expr, ast.Call) and getattr(expr.func, "id", None) == "dict" and expr.args and isinstance(expr.args[0], ast.Call) and getattr(expr.args[0].func, "id", None) == "enumerate":
         v = expr.args[0].args[0]
         if is_plain_view(v):
             return "enumerate-view", unparse(v)
+        if numbers_same_source(fn, v):
+            return "enumerate-placement-source", unparse(v)
         return None, f"enumerates `{unparse(v, 40)}`, not the unfiltered node/edge view in view order"
     if isinstance(expr, ast.Name):
         defs = local_defs(fn, expr.id)
@@ -338,6 +342,31 @@ def map_provenance(fn, expr, depth=0):
             why = w
         return sorted(kinds)[0], why
     return None, f"`{unparse(expr, 40)}` is not a recognised index-map construction"
+
+
+def numbers_same_source(fn, v):
+    """`dict(enumerate(X))` next to a placement map that numbers the very same local X (`{x: i for i, x in enumerate(X)}`,
+    `dict(zip(X, range(n)))`), X bound once to a view in view order (possibly filtered): position i is the i-th element of
+    X in both, so the returned map is the inverse of the map that placed the entries."""
+    if not (isinstance(v, ast.Name) and is_view_order(fn, v)):
+        return False
+    if any(isinstance(x, ast.Name) and x.id == v.id and isinstance(x.ctx, ast.Store) for st in ast.walk(fn.node) if isinstance(st, (ast.For, ast.AugAssign)) for x in ast.walk(st.target)):
+        return False
+    for st in ast.walk(fn.node):
+        if not (isinstance(st, ast.Assign) and len(st.targets) == 1 and isinstance(st.targets[0], ast.Name)):
+            continue
+        val = st.value
+        if isinstance(val, ast.Call) and getattr(val.func, "id", None) == "dict" and val.args and isinstance(val.args[0], ast.Call) and getattr(val.args[0].func, "id", None) == "zip" and len(val.args[0].args) == 2:
+            a, b = val.args[0].args
+            if isinstance(a, ast.Name) and a.id == v.id and isinstance(b, ast.Call) and getattr(b.func, "id", None) in ("range", "count"):
+                return True
+        if isinstance(val, ast.DictComp) and len(val.generators) == 1:
+            g = val.generators[0]
+            if isinstance(g.iter, ast.Call) and getattr(g.iter.func, "id", None) == "enumerate" and g.iter.args and isinstance(g.iter.args[0], ast.Name) and g.iter.args[0].id == v.id and isinstance(g.target, ast.Tuple) and len(g.target.elts) == 2 and all(isinstance(x, ast.Name) for x in g.target.elts):
+                i, x = g.target.elts
+                if isinstance(val.key, ast.Name) and val.key.id == x.id and isinstance(val.value, ast.Name) and val.value.id == i.id and not g.ifs:
+                    return True
+    return False
 
 
 def is_view_order(fn, v, depth=0):
